@@ -42,6 +42,14 @@ def showB (b : Bytes) : String :=
   | some "" => "~"
   | some v => v
 
+/-- `Bxh.Ledger.Coh` as a computation -/
+def cohB (db : DB) (a : Addr) (acc : Acct) : Bool :=
+  decide (acc.originAcc = KV.get db.acct a) &&
+  acc.dirtyState.all (fun p =>
+    !(!beq ((KV.get acc.originState p.1).getD none) p.2) ||
+      decide (((KV.get acc.originState p.1).getD none).getD "" = (KV.get db.state (a, p.1)).getD "")) &&
+  decide (acc.originCode = KV.get db.code a)
+
 def parseAddr (s : String) : Addr := (s.drop 1).toNat?.getD 99
 
 def verLine (l : L) : String := s!"ver={l.maxJ} min={l.minJ} root={l.prevRoot}"
@@ -94,7 +102,24 @@ def step (s : St) (ws : List String) : St × String :=
     | none => (s, "bad-op no-flush")
     | some f =>
       match commit l (h.toNat?.getD 0) f with
-      | some l' => ({ s with l := l' }, "ok")
+      | some l' =>
+        -- do the hypotheses of C12_rollback_restores_previous_block hold of this commit?  (distinct addresses; the origin
+        -- fields of every committed account object are what the state store holds right now)
+        let coh := f.accounts.all (fun p => cohB l.db p.1 p.2) && decide ((f.accounts.map (·.1)).Nodup)
+        -- which clause fails first (account record / storage / code), for the evidence
+        let why := f.accounts.foldl (fun (w : String) p =>
+          if w != "" then w
+          else if !decide (p.2.originAcc = KV.get l.db.acct p.1) then "acct"
+          else if !decide (p.2.originCode = KV.get l.db.code p.1) then "code"
+          else if !cohB l.db p.1 p.2 then
+            -- the first changed key whose origin value is not what the state store holds: `<origin>|<stored>`
+            (match p.2.dirtyState.find? (fun q => (!beq ((KV.get p.2.originState q.1).getD none) q.2) &&
+                !decide (((KV.get p.2.originState q.1).getD none).getD "" = (KV.get l.db.state (p.1, q.1)).getD "")) with
+              | some q => "storage:" ++ (match (KV.get p.2.originState q.1).getD none with | some "" => "empty" | some _ => "value" | none => "nil")
+                  ++ "|" ++ (match KV.get l.db.state (p.1, q.1) with | some "" => "empty" | some _ => "value" | none => "absent")
+              | none => "storage")
+          else "") ""
+        ({ s with l := l' }, "ok ##m coh=" ++ (if coh then "1" else "0/" ++ (if why == "" then "dup" else why)))
       | none => (s, "err other")
   | ["rollback", t] =>
     match rollback l (t.toNat?.getD 0) with
